@@ -41,6 +41,12 @@ def _is_impl_exc(o):
     return isinstance(o, dict) and "__impl_exception__" in o
 
 
+def _impl_safe(case):
+    """impl on one case from the main process (shrinking, replay confirmation): in a child process with the per-case
+    timeout, so that an input on which the real code hangs cannot hang the check itself"""
+    return _one_with_timeout(multiprocessing.get_context("fork"), case)
+
+
 def _impl_chunk(chunk):
     return [_impl_one(c) for c in chunk]
 
@@ -314,7 +320,7 @@ def main(argv):
     violations = []
 
     def fails_oracle(cand):
-        o = _impl_one(cand)
+        o = _impl_safe(cand)
         if isinstance(o, list) and o and o[0] == "harness-exception":
             return False
         if _is_impl_exc(o):
@@ -324,8 +330,9 @@ def main(argv):
 
     if new_failures:
         s, c, io, why = new_failures[0]
-        small = shrink(prop, c, fails_oracle)
-        so = _impl_one(small)
+        is_timeout = _is_impl_exc(io) and io["__impl_exception__"] == "Timeout"
+        small = c if is_timeout else shrink(prop, c, fails_oracle)  # a hanging input is reported as found
+        so = _impl_safe(small)
         path = write_replay(
             pid,
             "violation",
@@ -349,7 +356,7 @@ def main(argv):
         s, c, io, mo = disagreements[0]
 
         def differs(cand):
-            o = _impl_one(cand)
+            o = _impl_safe(cand)
             if isinstance(o, list) and o and o[0] == "harness-exception":
                 return False
             if _is_impl_exc(o):
@@ -358,7 +365,7 @@ def main(argv):
             return not prop.same(cand, o, m)
 
         small = shrink(prop, c, differs)
-        so = prop.impl(small)
+        so = _impl_safe(small)
         sm = run_model(prop, [small], [so])[0]
         broken.append(
             {
@@ -387,7 +394,7 @@ def main(argv):
                 break
         if hit:
             small = shrink(prop, hit[0], fails_oracle)
-            so = prop.impl(small)
+            so = _impl_safe(small)
             path = write_replay(
                 pid,
                 "violation",
@@ -415,7 +422,7 @@ def main(argv):
         from .common import REPO
 
         files = [os.path.join(REPO, f) for f in fingerprint.anchors(pid)]
-        if files and cases:
+        if files and cases and not any(_is_impl_exc(o) and o["__impl_exception__"] == "Timeout" for o in impl_outs):
             import ast
 
             cov = coverage.Coverage(include=files, data_file=None, config_file=False)
